@@ -147,9 +147,11 @@ func (pass *RenameObject) renameInDisjunction(visitor *Visitor, schema *ast.Sche
 func (pass *RenameObject) processStruct(visitor *Visitor, schema *ast.Schema, def ast.Type) (ast.Type, error) {
 	// hints can be set by users: the value isn't necessarily a disjunction.
 	// It goes first: its mapping designates the branches by their current name.
-	if disjunction, ok := def.Hints[ast.HintDiscriminatedDisjunctionOfRefs].(ast.DisjunctionType); ok {
-		if err := pass.renameInDisjunction(visitor, schema, &disjunction); err != nil {
-			return ast.Type{}, err
+	for _, hint := range disjunctionHints {
+		if disjunction, ok := def.Hints[hint].(ast.DisjunctionType); ok {
+			if err := pass.renameInDisjunction(visitor, schema, &disjunction); err != nil {
+				return ast.Type{}, err
+			}
 		}
 	}
 
